@@ -10,6 +10,7 @@ package props
 // dump of a fork that received an immediately-failing program).
 
 import (
+	"os"
 	"encoding/json"
 	"fmt"
 	"math/big"
@@ -38,8 +39,12 @@ func genC05(t *rapid.T) C05Case {
 	if len(p.Frames) == 0 {
 		p.Frames = []PxFrame{{Ops: []PxOp{{Op: evmasm.Op{Kind: "sstore", Key: 1, Val: 1}}}}}
 	}
+	p.Create = rapid.IntRange(0, 4).Draw(t, "create") == 0
 	c := C05Case{Prog: p}
 	c.F = rapid.IntRange(0, len(p.Frames)-1).Draw(t, "f")
+	if p.Create && rapid.Bool().Draw(t, "ctor-fails") {
+		c.F = 0
+	}
 	c.How = rapid.SampledFrom([]string{"revert", "revert", "invalid", "oog"}).Draw(t, "how")
 	return c
 }
@@ -67,7 +72,7 @@ func c05Subtree(p PxProgram, f int) map[int]bool {
 func c05Reachable(p PxProgram) map[int]bool { return c05Subtree(p, 0) }
 
 func withFailure(p PxProgram, f int, how string, keepBody bool) PxProgram {
-	q := PxProgram{Value: p.Value, SetW: p.SetW}
+	q := PxProgram{Value: p.Value, SetW: p.SetW, Create: p.Create}
 	for i, fr := range p.Frames {
 		nf := PxFrame{}
 		if i != f || keepBody {
@@ -114,14 +119,19 @@ func runC05(st *ev.Stats, c C05Case) string {
 	feeDelta := new(big.Int).Sub(resP.Fee, resQ.Fee)
 	signerKey, feeCollKey := bankBalanceKey(pxSigner.Addr), bankBalanceKey(authtypes.NewModuleAddress(authtypes.FeeCollectorName))
 	var diffs []chain.Diff
+	subAddr := map[string]bool{}
+	for i := range c05Subtree(c.Prog, c.F) {
+		subAddr[string(evmasm.FrameAddr(i).Bytes())] = true
+	}
 	for _, d := range chain.DiffStores(dumpQ, dumpP) {
 		switch {
 		case d.Store == "feemarket":
 			continue
 		case d.Store == "evm" && len(d.Key) > 0 && d.Key[0] == 0x01:
 			continue // contract code table: P and P' necessarily install different code for the failing frame
-		case d.Store == "acc" && len(d.Key) == 21 && string(d.Key[1:]) == string(evmasm.FrameAddr(c.F).Bytes()):
-			continue // the failing frame's account record carries the hash of that code
+		case d.Store == "acc" && len(d.Key) == 21 && subAddr[string(d.Key[1:])]:
+			continue // account records carry the code hash: the failing frame's differs by construction, and frames below it
+			// (unreachable in P') may be compiled against a different calling context
 		case d.Store == "bank" && string(d.Key) == signerKey:
 			if adjusted(d.A, d.B, new(big.Int).Neg(feeDelta)) {
 				continue
@@ -165,6 +175,11 @@ func runC05(st *ev.Stats, c C05Case) string {
 	}
 	sort.Strings(txMethods)
 	sort.Strings(queryMethods)
+	if len(diffs) > 0 && os.Getenv("VERIF_DEBUG") != "" {
+		for _, d := range diffs {
+			fmt.Printf("DEBUG C05 diff %s/%x:\n   Q=%x\n   P=%x\n", d.Store, d.Key, d.A, d.B)
+		}
+	}
 	if len(diffs) > 0 {
 		var stores []string
 		seen := map[string]bool{}
@@ -176,6 +191,17 @@ func runC05(st *ev.Stats, c C05Case) string {
 		}
 		desc := fmt.Sprintf("frame %d (%s) failed but %d store entries differ from the run in which the frame did nothing (stores %v); first: %s; precompile tx methods in the failed subtree %v, queries %v", c.F, c.How, len(diffs), stores, trunc(diffs[0].String()), txMethods, queryMethods)
 		var keys []string
+		if c.F == 0 {
+			// the transaction as a whole failed: nothing but fee and nonce may change, whatever ran inside
+			kind := "call"
+			if c.Prog.Create {
+				kind = "create"
+			}
+			if msg := fail("failed-tx-leak:"+kind, desc); msg != "" {
+				return msg
+			}
+			return ""
+		}
 		for _, m := range txMethods {
 			keys = append(keys, "frame-revert-leak:"+m)
 		}
@@ -208,6 +234,12 @@ func runC05(st *ev.Stats, c C05Case) string {
 	}
 	if len(txMethods) > 0 {
 		st.Class("reverted-subtree-with-precompile-tx")
+	}
+	if c.F == 0 && len(txMethods) > 0 {
+		st.Class("whole-tx-failed-after-precompile-tx")
+	}
+	if c.Prog.Create {
+		st.Class(fmt.Sprintf("constructor:failed-frame-is-ctor=%v", c.F == 0))
 	}
 	if len(pureKinds) >= 2 && c.F > 0 {
 		st.Class("reverted-subtree-pure-evm-2-kinds")
